@@ -3,11 +3,44 @@ mod client_props;
 mod driver;
 mod explore;
 mod mock;
+mod server_core;
+mod server_props;
 
 use client_props::{CProp, ClientHarness};
+use server_props::{SProp, ServerHarness};
 use driver::*;
 use std::collections::BTreeMap;
 use std::time::Duration;
+
+fn parts_for(prop: &str, tier: Tier) -> Vec<Box<dyn explore::Harness>> {
+    let c = |p: CProp| -> Box<dyn explore::Harness> {
+        Box::new(ClientHarness {
+            prop: p,
+            cfgs: client_props::configs(p, tier),
+        })
+    };
+    let s = |p: SProp| -> Box<dyn explore::Harness> {
+        Box::new(ServerHarness {
+            prop: p,
+            cfgs: server_props::configs(p, tier),
+        })
+    };
+    match prop {
+        "C01" => vec![c(CProp::C01)],
+        "C02" => vec![c(CProp::C02)],
+        "C03" => vec![c(CProp::C03)],
+        "C04" => vec![s(SProp::C04)],
+        "C05" => vec![c(CProp::C05)],
+        "C06" => vec![s(SProp::C06)],
+        "C08" => vec![s(SProp::C08)],
+        "C10" => vec![c(CProp::C10), s(SProp::C10)],
+        "C11" => vec![c(CProp::C11), s(SProp::C11)],
+        "C12" => vec![s(SProp::C12)],
+        "C14" => vec![c(CProp::C14), s(SProp::C14)],
+        "C18" => vec![c(CProp::C18)],
+        _ => vec![],
+    }
+}
 
 fn client_prop(name: &str) -> Option<CProp> {
     Some(match name {
@@ -15,10 +48,25 @@ fn client_prop(name: &str) -> Option<CProp> {
         "C02" => CProp::C02,
         "C03" => CProp::C03,
         "C05" => CProp::C05,
+        "C09" => CProp::C09,
         "C10" => CProp::C10,
         "C11" => CProp::C11,
         "C14" => CProp::C14,
         "C18" => CProp::C18,
+        _ => return None,
+    })
+}
+
+fn server_prop(name: &str) -> Option<SProp> {
+    Some(match name {
+        "C04" => SProp::C04,
+        "C06" => SProp::C06,
+        "C08" => SProp::C08,
+        "C09" => SProp::C09,
+        "C10" => SProp::C10,
+        "C11" => SProp::C11,
+        "C12" => SProp::C12,
+        "C14" => SProp::C14,
         _ => return None,
     })
 }
@@ -66,11 +114,8 @@ fn run(prop: &str, tier: Tier, replay: Option<String>) -> i32 {
     if let Some(p) = replay {
         return do_replay(prop, &p);
     }
-    if let Some(cp) = client_prop(prop) {
-        let h = ClientHarness {
-            prop: cp,
-            cfgs: client_props::configs(cp, tier),
-        };
+    let parts = parts_for(prop, tier);
+    if !parts.is_empty() {
         let bounds = match tier {
             Tier::Quick => vec![0, 1, 2],
             Tier::Thorough => vec![0, 1, 2, 3],
@@ -81,7 +126,7 @@ fn run(prop: &str, tier: Tier, replay: Option<String>) -> i32 {
             tier,
             bounds,
             wall_cap: Duration::from_secs(if tier == Tier::Quick { 45 } else { 1200 }),
-            rule: "every execution of the real client dispatch and callers under the harness-owned scheduler/transport/clock, for every listed configuration, with at most `bound_completed` deviations from the canonical schedule; distinct_nontrivial counts distinct trace hashes among executions in which the property's antecedent occurred".into(),
+            rule: "every execution of the real tarpc code (client dispatch + callers, or server channel + request stream + gated handlers) under the harness-owned scheduler/transport/clock, for every listed configuration, with at most `bound_completed` deviations from the canonical schedule; distinct_nontrivial counts distinct trace hashes among executions in which the property's antecedent occurred".into(),
             assumptions: vec![
                 "tokio mpsc/oneshot, futures Abortable and tokio-util DelayQueue internals are trusted".into(),
                 "a completed dispatch future is dropped (as tokio::spawn/join!/select! do)".into(),
@@ -89,7 +134,8 @@ fn run(prop: &str, tier: Tier, replay: Option<String>) -> i32 {
             ],
             extra: BTreeMap::new(),
         };
-        return run_property(&h, spec);
+        let refs: Vec<&dyn explore::Harness> = parts.iter().map(|b| b.as_ref()).collect();
+        return run_parts(&refs, spec);
     }
     eprintln!("unknown property {prop}");
     2
@@ -108,6 +154,25 @@ fn do_replay(prop: &str, path: &str) -> i32 {
         .map(|c| c.as_u64().unwrap() as u16)
         .collect();
     let sig = doc["signature"].as_str().unwrap_or("");
+    let harness = doc["harness"].as_str().unwrap_or("");
+    if harness.starts_with("server_core") {
+        let Some(sp) = server_prop(prop) else { return 2 };
+        let cfg: server_core::SCfg = serde_json::from_value(doc["config"].clone()).expect("config");
+        let (out, _) = server_props::run_cfg(sp, &cfg, &choices, true);
+        if let Some(e) = out.machinery_error {
+            eprintln!("machinery: {e}");
+            return 2;
+        }
+        println!("{}", out.render.unwrap_or_default());
+        for v in &out.violations {
+            println!("violated: {} — {}", v.signature, v.message);
+        }
+        if out.violations.iter().any(|v| v.signature == sig) || (sig.is_empty() && !out.violations.is_empty()) {
+            println!("VIOLATION property={prop} replay={path}");
+            return 1;
+        }
+        return 0;
+    }
     if let Some(cp) = client_prop(prop) {
         let cfg: client_core::CCfg = serde_json::from_value(doc["config"].clone()).expect("config");
         let (out, _) = client_props::run_cfg(cp, &cfg, &choices, true);
